@@ -267,9 +267,10 @@ func c12KSched(r *Run) {
 
 // c12MemCopyFlushOrder: a memory-copy command with flush requests (2 GPUs, dirty buffer) on the real
 // Driver.Tick; the responses arrive either with both flush responses first, or with the second
-// GPU's flush response after the copy response (Lean: W.Copy.memcopy_completes_full_refuted /
-// memcopy_completes_partial / memcopy_stuck_when_flush_last).
-func c12MemCopyFlushOrder(r *Run, flushLast bool) {
+// GPU's flush response after the copy response. In both orders the command must be dequeued once
+// every response has been processed (Lean: W.Copy.memcopy_completes_full; before the fix the
+// second order left it queued: memcopy_completes_full_before_fix_refuted).
+func c12MemCopyFlushOrder(r *Run, flushLast bool, d2h bool) {
 	d := driver.MakeBuilder().WithEngine(&fakeEngine{}).WithPageTable(vm.NewPageTable(12)).WithLog2PageSize(12).Build("Driver")
 	gpuPort := d.GetPortByName("GPU")
 	(&fakeConn{name: "c"}).PlugIn(gpuPort)
@@ -298,7 +299,11 @@ func c12MemCopyFlushOrder(r *Run, flushLast bool) {
 			}
 		}
 	}
-	desc := "2 GPUs; LaunchKernel + response (marks the buffers L2-dirty); MemCopyH2D of 64 bytes; responses: "
+	kind := "MemCopyH2D"
+	if d2h {
+		kind = "MemCopyD2H"
+	}
+	desc := "2 GPUs; LaunchKernel + response (marks the buffers L2-dirty); " + kind + " of 64 bytes; responses: "
 	d.Enqueue(q, &driver.LaunchKernelCommand{ID: sim.GetIDGenerator().Generate()})
 	run()
 	if len(out) != 1 {
@@ -308,7 +313,12 @@ func c12MemCopyFlushOrder(r *Run, flushLast bool) {
 	gpuPort.Deliver(protocol.NewLaunchKernelRsp(cps[0].AsRemote(), gpuPort.AsRemote(), out[0].Meta().ID))
 	run()
 	out = nil
-	d.EnqueueMemCopyH2D(q, buf, make([]byte, 64))
+	host := make([]byte, 64)
+	if d2h {
+		d.EnqueueMemCopyD2H(q, host, buf)
+	} else {
+		d.EnqueueMemCopyH2D(q, buf, host)
+	}
 	run()
 	var flush, copies []sim.Msg
 	for _, m := range out {
@@ -316,6 +326,11 @@ func c12MemCopyFlushOrder(r *Run, flushLast bool) {
 		case *protocol.FlushReq:
 			flush = append(flush, m)
 		case *protocol.MemCopyH2DReq:
+			copies = append(copies, m)
+		case *protocol.MemCopyD2HReq:
+			for i := range m.(*protocol.MemCopyD2HReq).DstBuffer {
+				m.(*protocol.MemCopyD2HReq).DstBuffer[i] = byte(i + 1) // what the GPU "read"
+			}
 			copies = append(copies, m)
 		}
 	}
@@ -345,13 +360,23 @@ func c12MemCopyFlushOrder(r *Run, flushLast bool) {
 		}
 		r.Failf(sig, desc, "every response was delivered and the driver is asleep, but the memory-copy command is still queued (IsRunning=%v): DrainCommandQueue on this queue never returns", q.IsRunning)
 	}
+	if d2h && q.NumCommand() == 0 {
+		for i, b := range host {
+			if b != byte(i+1) {
+				r.Failf("C12.driver.memcopy-d2h-data", desc, "the completed MemCopyD2H did not decode the copied bytes into its destination (byte %d = %d)", i, b)
+				break
+			}
+		}
+	}
 	r.Count("wake.memcopy-flush-order")
 }
 
 func runC12Deep(r *Run, rng *Rng, replay string) {
 	c12KSched(r)
-	c12MemCopyFlushOrder(r, false)
-	c12MemCopyFlushOrder(r, true)
+	for _, d2h := range []bool{false, true} {
+		c12MemCopyFlushOrder(r, false, d2h)
+		c12MemCopyFlushOrder(r, true, d2h)
+	}
 	nenv, per := 4, 12
 	if r.Tier == "thorough" {
 		nenv, per = 40, 40
